@@ -13,6 +13,16 @@ CLAIMS = {
          "interpreted over their abstract child domain (no redundant node, canonical complement form, level agreement); "
          "probe-chain accounting of the open-addressing unique table. Does not decide the 'iff' over histories.",
          "MIR field/dominance rules + abstract interpretation of HIR reduce tables", "4 C01"),
+ "C15": ("E-DDDMP + E-UNITS + E-LIN: writer/reader agreement as finite constant tables: header key set inclusion, byte-class "
+         "coverage of the name sanitisers vs the reader's separators (all 256 bytes), escape table and binary node-code layout "
+         "mutually inverse (exhaustive); var/level unit discipline of the exporter/importer; no edge leaked on importer error "
+         "paths. Round-trip equality and totality on malformed input are value-level and not decided.",
+         "constant-table extraction from HIR + exhaustive evaluation; unit analysis", "4 C15"),
+ "C19": ("E-FFI + E-LIN + E-UNITS on oxidd-ffi-c: C symbol <-> Rust operation wiring and operand order, equal export sets of the "
+         "three files, from_raw only under ManuallyDrop::new (borrow) or drop (unref), no entry point but the documented one "
+         "consumes handles and that one does so unconditionally, failure -> INVALID mapping, operand validation in op1/op2/op3. "
+         "Call-sequence equivalence with the Rust API is not decided.",
+         "HIR/MIR who-may-call and typestate rules", "3.7, 4 C19"),
  "C17": ("E-RAW on linear_hashtbl::raw: inventory of writers of the free-slot counter, +1/-1 pairing with status stores, "
          "provenance of retain's successor-is-free flag, Drain's full sweep, counter assignment when the slot array is replaced, "
          "probe-loop guards. Necessary conditions of `free <= #FREE slots` (termination of lookups, intact probe chains); set "
